@@ -1,6 +1,6 @@
 (* C18: the minimiser+k-mers iterator agrees with the plain one and conserves all w-mers. *)
 From Coq Require Import NArith List.
-From KT Require Import Gen.Generated Gen.Alphabet Gen.FactsBase Gen.FactTableKmerMinimisers Model.Kmer Proof.MinAbs Proof.MinConc Proof.KmMin.
+From KT Require Import Gen.Generated Gen.Alphabet Gen.FactsBase Gen.FactTableKmerMinimisers Model.Kmer Proof.MinAbs Proof.MinConc Proof.KmMin Proof.Pull.
 Import ListNotations.
 Open Scope N_scope.
 
@@ -18,6 +18,19 @@ Proof. intros w m s H1 H2. exact (kmg_run_conserves nt4km w m H1 H2 s). Qed.
 Theorem C18_alphabet : forall b, 4 <= b < 256 -> nt4km b = digit_of_letter b.
 Proof. exact (table_ok_spec table_kmer_minimisers table_kmer_minimisers_ok). Qed.
 
+(* the Iterator interface (Proof/Pull.v): the items drawn with next() until it returns None are those of the run
+   model the two theorems above speak about, and an exhausted iterator keeps returning None *)
+Theorem C18_items_drawn_with_next :
+  forall w m s, kmg_collect nt4km w m (length s + 2) (kmg_init, 0%nat, s) = kmg_run nt4km w m s.
+Proof. exact (kmg_collect_run nt4km). Qed.
+
+Theorem C18_exhausted_iterator_stays_exhausted :
+  forall w m st pos rest o', kmg_next nt4km w m st pos rest = (None, o') ->
+  let '(st', pos', rest') := o' in kmg_next nt4km w m st' pos' rest' = (None, o').
+Proof. intros w m. apply next_fused. apply kmg_closed. Qed.
+
 Print Assumptions C18_same_runs.
 Print Assumptions C18_conserves_wmers.
 Print Assumptions C18_alphabet.
+Print Assumptions C18_items_drawn_with_next.
+Print Assumptions C18_exhausted_iterator_stays_exhausted.
